@@ -80,6 +80,8 @@ func parseRaceReports(text string) []raceReport {
 				// of the wallet decides (library code runs on behalf of one of them)
 				if owner == "" {
 					switch {
+					case strings.HasPrefix(m[1], "massnet.org/mass-wallet/masswallet/db/ldb.") || strings.HasPrefix(m[1], "massnet.org/mass-wallet/masswallet/db."):
+						// the store's own code: whoever called it owns the access
 					case strings.HasPrefix(m[1], "verifsim.") || strings.Contains(m[1], ".Sim") || strings.HasPrefix(m[1], "testing"):
 						owner = "sim"
 					case strings.HasPrefix(m[1], "massnet.org/mass-wallet/"):
